@@ -5,6 +5,10 @@ GROUP = {
     "mem_gb": 26, "max_jobs": 3,
     # assertion reach checks off (measured 2.5x faster): vacuity is guarded by kani::cover! in every harness and by the mutant twins
     "kani_args": ["-Z", "stubbing", "--no-assertion-reach-checks"],
+    # CBMC's field sensitivity stops at 64 array cells by default: everything read back from a larger heap buffer is symbolic for
+    # symex. Raising the limit (a symex precision option, no effect on soundness) is what lets the harness that emits through the
+    # erased EMPTY runtime of an uninitialised slot finish (12 s; it did not finish in 15 min before). Measured by the C17 work.
+    "cbmc_args": [(r"c20_q_inert_before_init", ["--max-field-sensitivity-array-size", "1024"])],
     "recursion_caps": [(r"value_bag::internal::cast.*CastVisitor.*::fill", 3)],
     "modules": ["util", "env", "c02_alloc", "c16_owned", "c03_unwind", "c03_wrappers", "c20_slot", "c17_pathmap"],
 }
